@@ -7,9 +7,9 @@ ID = "C03"
 COQ_FILES = ["Common/Bytes.v", "Common/Corr.v", "Model/Utf8.v", "Model/Lexer.v", "Model/Comments.v",
              "Model/ProtocComments.v", "Proofs/Comments.v", "Props/C03.v"]
 PROPS = "Props/C03.v"
-THEOREMS = ["C03_comments_eq_protoc_refuted", "C03_comments_eq_protoc_partial", "C03_attribution_eq_protoc",
-            "C03_combine_comments_text_refuted", "C03_combine_comments_text_partial",
-            "C03_roles_partition", "C03_comment_used_once"]
+THEOREMS = ["C03_comments_eq_protoc_refuted", "C03_comments_eq_protoc_partial", "C03_comments_eq_protoc_fixed",
+            "C03_attribution_eq_protoc", "C03_combine_comments_text_refuted", "C03_combine_comments_text_partial",
+            "C03_combine_comments_text_fixed", "C03_roles_partition", "C03_comment_used_once"]
 AXIOMS_OK = []
 TRUSTED = ["hand-written Gallina model of parser/lexer.go comment attribution and sourceinfo attributeComments/combineComments (Model/Comments.v)",
            "Coq transcription of protoc's Tokenizer::NextWithComments / CommentCollector / ConsumeBlockComment / AttachComments (Model/ProtocComments.v), validated on every run against internal/testdata/source_info.protoset",
@@ -18,6 +18,11 @@ ASSUMPTIONS = ["protoc is not available: its behaviour is the Coq specification;
                "paths and spans are compared with protoc on the golden files only (P-core); generated sources check comments only",
                "gaps next to an empty statement are compared for the trailing comment of the declaration before it only: protoc's parser carries detached comments across an empty statement, which is not specified here",
                "sources that protoc rejects but this compiler accepts (a block comment containing the opening delimiter of another one) are not generated"]
+
+# which instance of the model the tree is expected to match: the code as it is, or with repairs applied
+# (VERIF_C03_CFG=fix_ws,fix_empty,fix_sep after the corresponding fixes/C03-*.diff went in)
+CFG = set(x for x in os.environ.get("VERIF_C03_CFG", "").split(",") if x)
+COQ_CFG = "(mkcfg %s %s %s)" % tuple(coq_bool(f in CFG) for f in ("fix_ws", "fix_empty", "fix_sep"))
 
 KNOWN_KEYS = ("block-comment-line-starts-with-cr-vt-ff", "empty-comment-sets-field",
               "comment-before-separator-donated-to-previous-token")
@@ -76,7 +81,7 @@ def gcase_term(has_prev, raw, nxt, extra, texp, dexp, lex):
     t = "TSkip" if texp is None else "(TIs %s)" % S.coq_otext(texp[0])
     d = "DSkip" if dexp is None else "(DIs %s %s)" % (coq_list(dexp[0], S.coq_text), S.coq_otext(dexp[1]))
     lx = "None" if lex is None else "(Some (%d, %d)%%nat)" % lex
-    return "(mkgcase %s %s %s %s %s %s %s)" % (coq_bool(has_prev), coq_N_list(raw), S.coq_nextk(nxt), coq_bool(extra), t, d, lx)
+    return "(mkgcase %s %s %s %s %s %s %s %s)" % (COQ_CFG, coq_bool(has_prev), coq_N_list(raw), S.coq_nextk(nxt), coq_bool(extra), t, d, lx)
 
 
 def gap_expectations(src, locs):
@@ -180,7 +185,7 @@ def run(ctx):
             raise RuntimeError("base source does not compile: " + str(o)[:400])
         bases.append((b, S.Src(bytes.fromhex(o["data"]), o["items"])))
     cases = [{"mode": "compile", "text": c.hex()} for c in CORPUS]
-    nfiles = ctx.budget(170, 3000)
+    nfiles = ctx.budget(60, 3000)
     for i in range(nfiles):
         b, src = bases[i % len(bases)]
         c = {"mode": "compile", "text": S.retrivia(rng, src).hex()}
